@@ -53,6 +53,9 @@ MatchRegex(re) ==
          [] re.op = "Concat"    -> LET first == MatchRegex(re.sub[1]) IN
                                    IF ~first.ok THEN Fail ELSE ConcatLoop(re.sub, 2, first.vals)
          [] re.op = "CharClass" -> IF ClassSize(Runes(re), 1) > MaxLiterals THEN Fail
+                                   \* an empty class matches nothing: no literal list stands for it (before the
+                                   \* repair in /repo it yielded no values, which the caller reads as the literal '')
+                                   ELSE IF ClassSize(Runes(re), 1) = 0 THEN Fail
                                    ELSE Ok(ClassVals(Runes(re), 1))
          [] re.op = "Alternate" -> AltLoop(re.sub, 1, <<>>)
          [] OTHER               -> Fail
